@@ -135,10 +135,10 @@ type Out struct {
 	Vals     []any // acceptable return values (empty: must raise)
 }
 
-func unknown() Out        { return Out{Unknown: true} }
-func raise() Out          { return Out{CanRaise: true} }
-func val(v any) Out       { return Out{Vals: []any{v}} }
-func vals(v ...any) Out   { return Out{Vals: v} }
+func unknown() Out         { return Out{Unknown: true} }
+func raise() Out           { return Out{CanRaise: true} }
+func val(v any) Out        { return Out{Vals: []any{v}} }
+func vals(v ...any) Out    { return Out{Vals: v} }
 func orRaise(v ...any) Out { return Out{Vals: v, CanRaise: true} }
 
 // single returns the one outcome of o when it has exactly one.
@@ -149,9 +149,6 @@ func (o Out) single() (v any, raised, ok bool) {
 	case o.CanRaise && len(o.Vals) == 0:
 		return nil, true, true
 	case !o.CanRaise && len(o.Vals) == 1:
-		if _, u := o.Vals[0].(unspecified); u {
-			return o.Vals[0], false, true
-		}
 		return o.Vals[0], false, true
 	}
 	return nil, false, false
@@ -276,6 +273,9 @@ func (m *M) eval(a any, e env) Out {
 			if !ok {
 				return unknown() // ojg may or may not read this as a path
 			}
+			if m.blind(p, e, false) {
+				return unknown()
+			}
 			v, ok := m.first(p, e, nil, false)
 			if !ok {
 				return unknown()
@@ -300,6 +300,13 @@ func (m *M) base(p Path, e env, data any, hasData bool) any {
 		return e.local
 	}
 	return m.Root
+}
+
+// blind: the path starts at a local value the reference does not know (the
+// unspecified return of set/setall).
+func (m *M) blind(p Path, e env, hasData bool) bool {
+	_, u := e.local.(unspecified)
+	return u && p.At && !hasData
 }
 
 func index(l []any, i int) (int, bool) {
@@ -1037,9 +1044,6 @@ func get(m *M, args []any, e env, allMatches bool) Out {
 	}
 	p, stop := m.pathArg(args[0], e, true)
 	if stop != nil {
-		if stop.CanRaise && len(args) == 2 && !m.pure(args[1]) {
-			return unknown()
-		}
 		return *stop
 	}
 	var data any
@@ -1055,6 +1059,9 @@ func get(m *M, args []any, e env, allMatches bool) Out {
 			return unknown()
 		}
 		data = v
+	}
+	if m.blind(p, e, len(args) == 2) {
+		return unknown()
 	}
 	l, ok := all(m.base(p, e, data, len(args) == 2), p.Frags)
 	if !ok {
@@ -1179,7 +1186,7 @@ func set(m *M, args []any, e env, allMatches bool) Out {
 	if _, isPath := v.(Path); isPath {
 		return unknown()
 	}
-	if m.tainted || len(p.Frags) == 0 {
+	if m.tainted || len(p.Frags) == 0 || m.blind(p, e, false) {
 		return unknown()
 	}
 	apply, ok := assign(m.base(p, e, nil, false), p.Frags, v, allMatches)
@@ -1193,260 +1200,6 @@ func set(m *M, args []any, e env, allMatches bool) Out {
 	return val(Unspecified)
 }
 
-// del/delall: "it must be a path"; whether a call that forms a path
-			// counts is not said, and the readings differ in side effects
-			u := unknown()
-			return p, &u
-		}
-		v, raised, ok := m.eval(a, e).single()
-		switch {
-		case !ok:
-			u := unknown()
-			return p, &u
-		case raised:
-			r := raise()
-			return p, &r
-		}
-		if pp, is := v.(Path); is {
-			return pp, nil
-		}
-		if _, is := v.(string); is {
-			u := unknown() // a string might be parsed as a path
-			return p, &u
-		}
-		r := raise()
-		return p, &r
-	}
-	if s, is := a.(string); is {
-		if pp, ok := ParsePath(s); ok {
-			return pp, nil
-		}
-		u := unknown() // "src.a", "$ x": may or may not count as a path
-		return p, &u
-	}
-	r := raise()
-	return p, &r
-}
-
-// get/getall: "The required first argument must be a path and the option
-// second argument is the data to apply the path to."
-func get(m *M, args []any, e env, allMatches bool) Out {
-	if len(args) < 1 || len(args) > 2 {
-		return raise()
-	}
-	p, stop := m.pathArg(args[0], e, true)
-	if stop != nil {
-		if stop.CanRaise && len(args) == 2 && !m.pure(args[1]) {
-			return unknown()
-		}
-		return *stop
-	}
-	var data any
-	if len(args) == 2 {
-		v, raised, ok := m.eval(args[1], e).single()
-		if !ok {
-			return unknown()
-		}
-		if raised {
-			return raise()
-		}
-		if _, u := v.(unspecified); u {
-			return unknown()
-		}
-		data = v
-	}
-	l, ok := all(m.base(p, e, data, len(args) == 2), p.Frags)
-	if !ok {
-		return unknown()
-	}
-	if allMatches {
-		if len(l) == 0 {
-			return vals([]any{}, nil)
-		}
-		return val(l)
-	}
-	if len(l) == 0 {
-		return val(nil)
-	}
-	return val(l[0])
-}
-
-func isContainer(v any) bool {
-	switch v.(type) {
-	case []any, map[string]any:
-		return true
-	}
-	return false
-}
-
-// set/setall: child chains are created as maps when missing; an existing
-// element is overwritten. Everything else jp might do is left Unknown.
-func set(m *M, args []any, e env, allMatches bool) Out {
-	if len(args) != 2 {
-		return raise()
-	}
-	p, stop := m.pathArg(args[0], e, true)
-	if stop != nil {
-		if !m.pure(args[1]) {
-			return unknown()
-		}
-		return *stop
-	}
-	v, raised, ok := m.eval(args[1], e).single()
-	if !ok {
-		return unknown()
-	}
-	if raised {
-		return raise()
-	}
-	if _, u := v.(unspecified); u {
-		return unknown()
-	}
-	if _, isPath := v.(Path); isPath {
-		return unknown()
-	}
-	if m.tainted || len(p.Frags) == 0 {
-		return unknown()
-	}
-	cur := m.base(p, e, nil, false)
-	last := len(p.Frags) - 1
-	// dry run first so that an Unknown leaves the root untouched
-	type step struct {
-		mp  map[string]any
-		key string
-	}
-	var create []step
-	for i, f := range p.Frags[:last] {
-		switch f.Kind {
-		case 'c':
-			mp, is := cur.(map[string]any)
-			if !is {
-				return unknown()
-			}
-			next, has := mp[f.Key]
-			if !has {
-				for _, g := range p.Frags[i+1:] {
-					if g.Kind != 'c' {
-						return unknown()
-					}
-				}
-				nm := map[string]any{}
-				create = append(create, step{mp, f.Key})
-				_ = nm
-				cur = nm
-				// remaining fragments are all children of fresh maps
-				for _, g := range p.Frags[i+1 : last] {
-					_ = g
-				}
-				goto build
-			}
-			if next == nil {
-				return unknown()
-			}
-			cur = next
-		case 'n':
-			l, is := cur.([]any)
-			if !is {
-				return unknown()
-			}
-			j, in := index(l, f.Idx)
-			if !in || l[j] == nil {
-				return unknown()
-			}
-			cur = l[j]
-		default:
-			return unknown()
-		}
-	}
-	{
-		f := p.Frags[last]
-		switch f.Kind {
-		case 'c':
-			mp, is := cur.(map[string]any)
-			if !is {
-				return unknown()
-			}
-			mp[f.Key] = v
-		case 'n':
-			l, is := cur.([]any)
-			if !is {
-				return unknown()
-			}
-			j, in := index(l, f.Idx)
-			if !in {
-				return unknown()
-			}
-			l[j] = v
-		default:
-			switch t := cur.(type) {
-			case []any:
-				if len(t) == 0 {
-					return unknown()
-				}
-				if allMatches {
-					for j := range t {
-						t[j] = v
-					}
-				} else {
-					t[0] = v
-				}
-			case map[string]any:
-				if !allMatches || len(t) == 0 {
-					return unknown()
-				}
-				for k := range t {
-					t[k] = v
-				}
-			default:
-				return unknown()
-			}
-		}
-		if isContainer(v) {
-			m.tainted = true
-		}
-		return val(Unspecified)
-	}
-build:
-	{
-		// create the missing chain: create[0] is where the first new map hangs
-		st := create[0]
-		var first map[string]any
-		var tip map[string]any
-		started := false
-		for i, f := range p.Frags[:last] {
-			if !started {
-				if f.Key == st.key && sameMap(st.mp, m.parentAt(p, e, i)) {
-					started = true
-					first = map[string]any{}
-					tip = first
-				}
-				continue
-			}
-			nm := map[string]any{}
-			tip[f.Key] = nm
-			tip = nm
-		}
-		tip[p.Frags[last].Key] = v
-		st.mp[st.key] = first
-		if isContainer(v) {
-			m.tainted = true
-		}
-		return val(Unspecified)
-	}
-}
-
-func sameMap(a, b map[string]any) bool {
-	if a == nil || b == nil {
-		return false
-	}
-	// identity: write a probe key
-	const probe = "\x00asmref-probe"
-	a[probe] = true
-	_, has := b[probe]
-	delete(a, probe)
-	return has
-}
-
 // del/delall: "Exactly one argument is required and it must be a path ...
 // The local (@) value is returned." Only the removal of an object member is
 // modelled (array elements: nil-in-place and removal are both defensible).
@@ -1458,7 +1211,7 @@ func del(m *M, args []any, e env, allMatches bool) Out {
 	if stop != nil {
 		return *stop
 	}
-	if m.tainted || len(p.Frags) == 0 {
+	if m.tainted || len(p.Frags) == 0 || m.blind(p, e, false) {
 		return unknown()
 	}
 	cur := m.base(p, e, nil, false)
@@ -1581,3 +1334,30 @@ func mkPath(m *M, args []any, e env, at bool) Out {
 	}
 	return val(Path{At: at, Frags: fr})
 }
+
+// sameMap reports whether a and b are the same map object.
+func sameMap(a, b map[string]any) bool {
+	if a == nil || b == nil {
+		return false
+	}
+	const probe = "\x00asmref-probe"
+	a[probe] = true
+	_, has := b[probe]
+	delete(a, probe)
+	return has
+}
+
+// EvalArg evaluates one argument (call, path or literal) at the top level
+// (local value = root). Used by the check to name argument kinds.
+func (m *M) EvalArg(a any) Out {
+	return m.eval(a, env{local: m.Root, isRoot: true})
+}
+
+// IsCall reports whether a is a list headed by a known function name.
+func (m *M) IsCall(a any) bool {
+	_, _, ok := m.isCall(a)
+	return ok
+}
+
+// Single returns the only outcome of o, if it has exactly one.
+func (o Out) Single() (v any, raised, ok bool) { return o.single() }
